@@ -129,6 +129,108 @@ fn run_child(bin: &std::path::Path, seed: u64, tier: &str) -> Option<Stats> {
     text.lines().find_map(|l| l.strip_prefix("C20-NATIVE ").and_then(Stats::parse))
 }
 
+/// The same gate as shipped on the command line: `fst verify <file>` over hostile files must END WITH A VERDICT - exit status 0
+/// (certified) or 1 (rejected with an error message) - never a panic (status 101), another status, or death by signal.
+fn cli_gate(ctx: &Ctx, ev: &mut Ev) {
+    let bin = match std::env::var_os("FST_BIN") {
+        Some(b) => std::path::PathBuf::from(b),
+        None => {
+            ev.count("cli-gate:binary-not-available");
+            return;
+        }
+    };
+    let dir = ctx.root.join("target").join("tmp").join(format!("c20-cli-{}", std::process::id()));
+    let _ = std::fs::remove_dir_all(&dir);
+    if std::fs::create_dir_all(&dir).is_err() {
+        return;
+    }
+    let mut rng = crate::rng::Rng::new(ctx.seed, 0xC20C11);
+    // a few valid FSTs (set, map with outputs, wide root, empty, only the empty key)
+    let mut goods: Vec<Vec<u8>> = vec![];
+    {
+        use fst::raw::Builder;
+        let mk = |kv: Vec<(Vec<u8>, u64)>| {
+            let mut b = Builder::memory();
+            for (k, v) in kv {
+                b.insert(k, v).unwrap();
+            }
+            b.into_inner().unwrap()
+        };
+        goods.push(mk(vec![]));
+        goods.push(mk(vec![(vec![], 0)]));
+        goods.push(mk(vec![(vec![], 7), (b"a".to_vec(), 9), (b"ab".to_vec(), 1 << 40)]));
+        goods.push(mk((0..=255u8).map(|b| (vec![b], b as u64 * 3)).collect()));
+        goods.push(mk((0..300u32).map(|i| (format!("key{:05}", i).into_bytes(), (i as u64) << (i % 50))).collect()));
+    }
+    let mut images: Vec<Vec<u8>> = vec![];
+    for len in [0usize, 1, 7, 8, 15, 16, 31, 32, 35, 36, 37, 40, 64, 200].iter() {
+        images.push((0..*len).map(|_| rng.next() as u8).collect());
+        images.push(vec![0u8; *len]);
+    }
+    let boundary = |len: usize| -> Vec<u64> { vec![0, 1, 2, 16, 17, (len as u64).wrapping_sub(21), (len as u64).wrapping_sub(17), len as u64, 1 << 32, u64::MAX - 20, u64::MAX] };
+    for g in &goods {
+        for version in [1u8, 2, 3].iter() {
+            // the valid bytes relabelled (old versions read a different footer), then damaged
+            let mut img = g.clone();
+            img[0] = *version;
+            images.push(img.clone());
+            for _ in 0..ctx.tier.pick(6, 60) {
+                let mut m = img.clone();
+                let pos = rng.usize(m.len());
+                m[pos] ^= 1 << rng.below(8);
+                images.push(m);
+            }
+            // hostile footer fields
+            let l = img.len();
+            let foot = if *version == 3 { 20 } else { 16 };
+            if l >= 16 + foot {
+                for v in boundary(l) {
+                    let mut m = img.clone();
+                    m[l - foot + 8..l - foot + 16].copy_from_slice(&v.to_le_bytes());
+                    images.push(m);
+                    let mut m = img.clone();
+                    m[l - foot..l - foot + 8].copy_from_slice(&v.to_le_bytes());
+                    images.push(m);
+                }
+            }
+            // truncations
+            let mut cut = l;
+            while cut > 0 {
+                cut = cut.saturating_sub(1 + rng.usize(9));
+                images.push(img[..cut].to_vec());
+                if images.len() % 3 != 0 {
+                    break;
+                }
+            }
+        }
+    }
+    let path = dir.join("image.fst");
+    for (i, img) in images.iter().enumerate() {
+        if std::fs::write(&path, img).is_err() {
+            continue;
+        }
+        ev.eval(Some(crate::rng::fnv_u64(0xC20C, crate::rng::fnv(img))));
+        let out = Command::new(&bin).arg("verify").arg(&path).env_remove("FST_VERIF_TRACE").env_remove("FST_VERIF_SEED").output();
+        match out {
+            Err(_) => ev.count("cli-gate:spawn-failed"),
+            Ok(o) => match o.status.code() {
+                Some(0) => ev.count("cli-gate:verdict-certified"),
+                Some(1) => ev.count("cli-gate:verdict-rejected"),
+                other => {
+                    use std::os::unix::process::ExitStatusExt;
+                    let err = String::from_utf8_lossy(&o.stderr).to_string();
+                    ev.violate(
+                        "open-verify-panic",
+                        format!("`fst verify` on hostile image #{} ({} bytes) ended without a verdict: exit status {:?}, signal {:?}: {}", i, img.len(), other, o.status.signal(), err.lines().find(|l| l.contains("panicked")).or(err.lines().last()).unwrap_or("")),
+                        J::obj(vec![("image_hex", J::s(crate::json::hex(&img[..img.len().min(400)]))), ("bytes", J::U(img.len() as u64))]),
+                    );
+                }
+            },
+        }
+    }
+    let _ = std::fs::remove_dir_all(&dir);
+}
+
 pub fn run(ctx: &Ctx) -> i32 {
     let mut ev = Ev::new();
     let exe = std::env::current_exe().unwrap();
@@ -159,6 +261,7 @@ pub fn run(ctx: &Ctx) -> i32 {
             }
         }
     }
+    cli_gate(ctx, &mut ev);
     // auxiliary, non-runtime gate for the purely syntactic sentence "the library contains no unsafe code"
     {
         let tgt = ctx.root.join("target").join("aux");
@@ -256,7 +359,7 @@ pub fn run(ctx: &Ctx) -> i32 {
         ev.add("inconclusive-parts", inconclusive.len() as u64);
     }
     let need_parts = if inconclusive.is_empty() { 0 } else { 1 };
-    let mut floors: Vec<(&str, u64)> = vec![("native[release]:images", 100_000), ("native[overflow-checked+debug-assertions]:images", 100_000), ("native[release]:opened", 1000), ("native[release]:rejected-format", 1000), ("native[release]:rejected-version", 1000), ("native[release]:opened-verify-ok", 10), ("native[release]:opened-verify-mismatch", 100), ("native[release]:opened-verify-missing", 100), ("miri:shards-completed", 16), ("miri:ops", 500), ("aux:library-compiles-with-forbid-unsafe_code", 1)];
+    let mut floors: Vec<(&str, u64)> = vec![("cli-gate:verdict-rejected", 100), ("cli-gate:verdict-certified", 3), ("native[release]:images", 100_000), ("native[overflow-checked+debug-assertions]:images", 100_000), ("native[release]:opened", 1000), ("native[release]:rejected-format", 1000), ("native[release]:rejected-version", 1000), ("native[release]:opened-verify-ok", 10), ("native[release]:opened-verify-mismatch", 100), ("native[release]:opened-verify-missing", 100), ("miri:shards-completed", 16), ("miri:ops", 500), ("aux:library-compiles-with-forbid-unsafe_code", 1)];
     if need_parts == 1 {
         floors.push(("all-parts-ran", 1));
     }
@@ -265,7 +368,7 @@ pub fn run(ctx: &Ctx) -> i32 {
         ev,
         Spec {
             level: "exploration",
-            rule: "one evaluation = one byte string pushed through the gate Fst::new / Map::new / Set::new, then on anything that opens len, is_empty, fst_type, size, as_bytes, to_vec, as_inner and verify(), all under catch_unwind; run in a release build AND in an optimised build with overflow checks and debug assertions (footer arithmetic differs); images: every length 0..64 x 7 version fields x 14x14 footer root/len boundary values x 3 fillings (~2.7*10^5; version-3 images additionally with a CORRECT recomputed checksum, so that verify() gets past its comparison), the same bytes also arriving through Fst::map_data / Map::map_data on a container opened from good bytes, 54 large images around 64 KiB / 1 MiB / 2 MiB +-3 bytes, 10^6 (thorough 2*10^7) random strings of length 0..512, every truncation / 5 single-byte mutations per offset / extensions of 50 (200) valid FSTs; Miri (undefined-behaviour interpreter) runs 16 shards of the same gate on boundary images plus bounded traversals (stream, get, range, search, set operation) of single-byte-mutated FSTs where a panic is allowed but undefined behaviour is not, and (thorough) a miniature of every public operation on valid inputs; the syntactic clause 'no unsafe code' is covered by an auxiliary NON-RUNTIME gate (the library must compile with -F unsafe_code); non-trivial = every image; distinct_nontrivial is counted conservatively (half of the native images + all Miri operations)",
+            rule: "(also: the command line gate `fst verify <file>` run as a subprocess over several hundred hostile files - random bytes, valid FSTs relabelled as version 1/2/3 and damaged, hostile footer fields, truncations - must end with a verdict, exit status 0 or 1, never a panic status or a signal) one evaluation = one byte string pushed through the gate Fst::new / Map::new / Set::new, then on anything that opens len, is_empty, fst_type, size, as_bytes, to_vec, as_inner and verify(), all under catch_unwind; run in a release build AND in an optimised build with overflow checks and debug assertions (footer arithmetic differs); images: every length 0..64 x 7 version fields x 14x14 footer root/len boundary values x 3 fillings (~2.7*10^5; version-3 images additionally with a CORRECT recomputed checksum, so that verify() gets past its comparison), the same bytes also arriving through Fst::map_data / Map::map_data on a container opened from good bytes, 54 large images around 64 KiB / 1 MiB / 2 MiB +-3 bytes, 10^6 (thorough 2*10^7) random strings of length 0..512, every truncation / 5 single-byte mutations per offset / extensions of 50 (200) valid FSTs; Miri (undefined-behaviour interpreter) runs 16 shards of the same gate on boundary images plus bounded traversals (stream, get, range, search, set operation) of single-byte-mutated FSTs where a panic is allowed but undefined behaviour is not, and (thorough) a miniature of every public operation on valid inputs; the syntactic clause 'no unsafe code' is covered by an auxiliary NON-RUNTIME gate (the library must compile with -F unsafe_code); non-trivial = every image; distinct_nontrivial is counted conservatively (half of the native images + all Miri operations)",
             assumptions: vec!["root(), node() and traversals may panic on malformed data: the statement only makes open, metadata accessors and verify total".into(), "Miri cannot see through FFI; the library has none".into(), "a Miri or build-tool failure is INCONCLUSIVE, never a violation".into()],
             floors,
             exhaustive: Some(false),
